@@ -13,16 +13,18 @@ import ast
 from .core import AnalysisError, Vanished
 from .srcmodel import walk_own, const_str
 
-CLASSES = ('Comment', 'Space', 'Newline', 'Name', 'Label', 'Keyword',
-           'Number', 'SymClose', 'SymOther', 'String')
-TOKCLASS = {
-    'TokComment': {'Comment'}, 'TokSpace': {'Space'},
-    'TokNewline': {'Newline'}, 'TokName': {'Name'}, 'TokLabel': {'Label'},
-    'TokKeyword': {'Keyword'}, 'TokNumber': {'Number'},
-    'TokSymbol': {'SymClose', 'SymOther'}, 'TokString': {'String'},
+# Token kinds.  The symbol and keyword kinds are split further into classes
+# by the membership tests on the token's spelling that the writer itself makes
+# (e.g. `token.code in b'])}'`): two spellings are in one class iff every
+# such test gives the same answer for both.
+KINDS = ('Comment', 'Space', 'Newline', 'Name', 'Label', 'Keyword', 'Number',
+         'Symbol', 'String')
+KIND_OF_TOKCLASS = {
+    'TokComment': 'Comment', 'TokSpace': 'Space', 'TokNewline': 'Newline',
+    'TokName': 'Name', 'TokLabel': 'Label', 'TokKeyword': 'Keyword',
+    'TokNumber': 'Number', 'TokSymbol': 'Symbol', 'TokString': 'String',
 }
-CODE_CLASSES = ('Name', 'Label', 'Keyword', 'Number', 'SymClose', 'SymOther',
-                'String')
+CODE_KINDS = ('Name', 'Label', 'Keyword', 'Number', 'Symbol', 'String')
 
 W = 'pico8.lua.lua:LuaMinifyTokenWriter'
 
@@ -40,6 +42,7 @@ class MinifierModel:
         self.wrapper = None
         self.core = None
         self._find_core()
+        self._partition()
         self._init_state()
         self.table = {}
         self._build()
@@ -138,6 +141,111 @@ class MinifierModel:
         if yields_chunk != 1 or not getattr(self, '_last_assigned', False):
             self.wrapper_ok = False
 
+    # ---- token classes ---------------------------------------------------------
+    def _spelling_tests(self):
+        """membership / equality tests on <tok>.code in the loop body:
+        -> [(node, predicate over a spelling)]"""
+        tok = self.loop.target.id
+        out = []
+        for n in walk_own(self.loop):
+            if not (isinstance(n, ast.Compare) and len(n.ops) == 1 and
+                    ast.unparse(n.left) == tok + '.code'):
+                continue
+            op, c = n.ops[0], n.comparators[0]
+            try:
+                lit = ast.literal_eval(c)
+            except Exception:
+                raise AnalysisError('minifier compares the spelling with a '
+                                    'non-literal: ' + ast.unparse(n)[:60])
+            if isinstance(op, (ast.In, ast.NotIn)):
+                if isinstance(lit, bytes):
+                    pred = (lambda sp, lit=lit: sp in lit)
+                    members = [bytes([b]) for b in lit]
+                elif isinstance(lit, (tuple, list, set, frozenset)) and all(
+                        isinstance(x, bytes) for x in lit):
+                    pred = (lambda sp, lit=frozenset(lit): sp in lit)
+                    members = list(lit)
+                else:
+                    raise AnalysisError('minifier spelling test: ' +
+                                        ast.unparse(n)[:60])
+            elif isinstance(op, (ast.Eq, ast.NotEq)) and \
+                    isinstance(lit, bytes):
+                pred = (lambda sp, lit=lit: sp == lit)
+                members = [lit]
+            else:
+                raise AnalysisError('minifier spelling test: ' +
+                                    ast.unparse(n)[:60])
+            neg = isinstance(op, (ast.NotIn, ast.NotEq))
+            out.append((n, pred, neg, members))
+        return out
+
+    def _partition(self):
+        from .refs import lexical
+        self.tests = self._spelling_tests()
+        universe = {'Symbol': list(lexical.SYMBOLS),
+                    'Keyword': list(lexical.KEYWORDS)}
+        known = set(lexical.SYMBOLS) | set(lexical.KEYWORDS)
+        for (n, _p, _neg, members) in self.tests:
+            for m in members:
+                if m not in known and not all(
+                        bytes([b]) in known or not bytes([b]).isalnum()
+                        for b in m):
+                    raise AnalysisError(
+                        'minifier tests the spelling against {!r}, which is '
+                        'neither a symbol nor a keyword'.format(m))
+        self.classes = []
+        self.kind_of = {}
+        self.members = {}
+        self.test_value = {}
+        for kind in KINDS:
+            if kind not in universe:
+                self.classes.append(kind)
+                self.kind_of[kind] = kind
+                self.members[kind] = None
+                # names, numbers, strings, labels, layout: no spelling of
+                # these kinds equals a symbol or keyword
+                self.test_value[kind] = tuple(False for _ in self.tests)
+                continue
+            groups = {}
+            for sp in universe[kind]:
+                sig = tuple(bool(p(sp)) for (_n, p, _neg, _m) in self.tests)
+                groups.setdefault(sig, []).append(sp)
+            if len(groups) == 1:
+                sig = next(iter(groups))
+                self.classes.append(kind)
+                self.kind_of[kind] = kind
+                self.members[kind] = frozenset(groups[sig])
+                self.test_value[kind] = sig
+                continue
+            for sig, sps in sorted(groups.items(),
+                                   key=lambda kv: (len(kv[1]), kv[1])):
+                if len(sps) <= 6:
+                    nm = kind + '{' + ' '.join(
+                        x.decode('latin-1') for x in sps) + '}'
+                else:
+                    nm = '{}{{other {}}}'.format(kind, len(sps))
+                    k = 2
+                    while nm in self.kind_of:
+                        nm = '{}{{other {} #{}}}'.format(kind, len(sps), k)
+                        k += 1
+                self.classes.append(nm)
+                self.kind_of[nm] = kind
+                self.members[nm] = frozenset(sps)
+                self.test_value[nm] = sig
+        self.code_classes = [c for c in self.classes
+                             if self.kind_of[c] in CODE_KINDS]
+
+    def class_of(self, kind, spelling=None):
+        """class name of a token of `kind` (and spelling, for symbols and
+        keywords)."""
+        cands = [c for c in self.classes if self.kind_of[c] == kind]
+        if len(cands) == 1:
+            return cands[0]
+        for c in cands:
+            if spelling is not None and spelling in self.members[c]:
+                return c
+        return None
+
     # ---- loop-carried state ----------------------------------------------------
     def _init_state(self):
         st = {}
@@ -180,7 +288,7 @@ class MinifierModel:
         seen = {self.initial}
         while todo:
             s = todo.pop()
-            for c in CLASSES:
+            for c in self.classes:
                 outs, ns = self._run(c, s, tok)
                 self.table[(c, s)] = (outs, ns)
                 if ns not in seen:
@@ -252,12 +360,9 @@ class MinifierModel:
             vals = [self._value(v, env, cls, tok) for v in e.values]
             return all(vals) if isinstance(e.op, ast.And) else any(vals)
         if isinstance(e, ast.Compare) and len(e.ops) == 1:
-            if isinstance(e.ops[0], ast.In) and \
-                    ast.unparse(e.left) == tok + '.code' and \
-                    isinstance(const_str(e.comparators[0]), bytes):
-                lit = const_str(e.comparators[0])
-                self.close_literal = lit
-                return cls == 'SymClose'
+            for i, (n, _p, neg, _m) in enumerate(self.tests):
+                if n is e:
+                    return self.test_value[cls][i] != neg
             l = self._value(e.left, env, cls, tok)
             r = self._value(e.comparators[0], env, cls, tok)
             op = e.ops[0]
@@ -278,14 +383,14 @@ class MinifierModel:
                 isinstance(e.func.value, ast.Name) and \
                 e.func.value.id == tok and e.args:
             nm = ast.unparse(e.args[0]).split('.')[-1]
-            if nm in TOKCLASS:
-                return cls in TOKCLASS[nm]
+            if nm in KIND_OF_TOKCLASS:
+                return self.kind_of[cls] == KIND_OF_TOKCLASS[nm]
         if isinstance(e, ast.Call) and isinstance(e.func, ast.Name) and \
                 e.func.id == 'isinstance' and len(e.args) == 2 and \
                 isinstance(e.args[0], ast.Name) and e.args[0].id == tok:
             nm = ast.unparse(e.args[1]).split('.')[-1]
-            if nm in TOKCLASS:
-                return cls in TOKCLASS[nm]
+            if nm in KIND_OF_TOKCLASS:
+                return self.kind_of[cls] == KIND_OF_TOKCLASS[nm]
         raise AnalysisError('minifier expression outside the model: ' + k[:60])
 
     def _chunk(self, e, tok):
@@ -323,32 +428,43 @@ class MinifierModel:
         """states reachable right after a code token was processed"""
         out = set()
         for (c, s), (outs, ns) in self.table.items():
-            if c in CODE_CLASSES:
+            if c in self.code_classes:
                 out.add((c, ns))
         return out
 
-    def sep_function(self):
+    def sep_function(self, with_newlines=False):
         """{(A, B): set of separators emitted between the chunk of code token
         A and the chunk of code token B when they are directly adjacent
-        (nothing, or only spaces/comments, between them) }"""
+        (nothing, or only spaces/comments, between them) }.  With
+        with_newlines, layouts that also contain Newline tokens are explored
+        and the text the fillers themselves emit is part of the separator."""
         sep = {}
+        fillers = ('Space', 'Comment') + (('Newline',) if with_newlines
+                                          else ())
         for (a, s), (_outs, ns) in self.table.items():
-            if a not in CODE_CLASSES:
+            if a not in self.code_classes:
                 continue
             # layout between the two tokens: nothing, spaces, dropped comments
-            mids = {ns}
-            frontier = [ns]
+            start = (ns, b'', False)
+            mids = {start}
+            frontier = [start]
             while frontier:
-                x = frontier.pop()
-                for filler in ('Space', 'Comment'):
+                (x, acc, had_nl) = frontier.pop()
+                for filler in fillers:
                     o, y = self.table[(filler, x)]
-                    if o:
-                        continue         # header comment: emits text
-                    if y not in mids:
-                        mids.add(y)
-                        frontier.append(y)
-            for x in mids:
-                for b in CODE_CLASSES:
+                    if any(ch[0] != 'lit' for ch in o):
+                        continue         # header comment: emits its text
+                    if o and not with_newlines:
+                        continue
+                    acc2 = (acc + b''.join(ch[1] for ch in o))[:4]
+                    st = (y, acc2, had_nl or filler == 'Newline')
+                    if st not in mids:
+                        mids.add(st)
+                        frontier.append(st)
+            for (x, acc, had_nl) in mids:
+                if with_newlines and not had_nl:
+                    continue
+                for b in self.code_classes:
                     o, _y = self.table[(b, x)]
                     pre = []
                     for ch in o:
@@ -356,5 +472,5 @@ class MinifierModel:
                             pre.append(ch[1])
                         else:
                             break
-                    sep.setdefault((a, b), set()).add(b''.join(pre))
+                    sep.setdefault((a, b), set()).add(acc + b''.join(pre))
         return sep
